@@ -158,6 +158,9 @@ func (this *RaftTransport) getGroup(id uuid.UUID) (*RaftGroup, error) {
 }
 
 func (this *RaftTransport) getNodeRaftTransportClient(nodeId uint64) (pb.RaftTransportClient, error) {
+	if c := verifTransportClient(this.nodeId, nodeId); c != nil {
+		return c, nil
+	}
 	this.nodeClientsMu.RLock()
 	if client, exists := this.nodeClients[nodeId]; exists {
 		this.nodeClientsMu.RUnlock()
